@@ -603,7 +603,7 @@ fn main() {
     // file sets, simplest first: one line; two lines; three lines; each cut into files in every way
     let one_max = run.pick(3, 5);
     let two_max = run.pick(1, 2);
-    let three_alpha: &[&str] = if run.quick() { &["a", "b", " "] } else { &ALPHA };
+    let three_alpha: &[&str] = if run.quick() { &["a", " "] } else { &ALPHA };
     let mut sets: Vec<Vec<Vec<String>>> = vec![];
     for l in strings(&ALPHA, one_max) {
         sets.push(vec![vec![l]]);
